@@ -105,6 +105,7 @@ def run_unit(unit, workdir, tier, ledger, seed):
     for d in failed + rlim:
         fn, section = vunit.fn_at_line(text, d['line'] or 1)
         d['function'], d['section'] = fn, section
+        d['contract_marks'] = vunit.contract_marks(text, d['line'] or 1)
     led = ledger.get(unit.name, {})
     if frontend or r.get('no_json') or r.get('timeout') or r.get('vir_error'):
         msg = frontend[0]['message'] if frontend else ('verus produced no result: ' + (r.get('stderr') or '')[-400:])
@@ -155,6 +156,64 @@ def run_unit(unit, workdir, tier, ledger, seed):
     return res
 
 
+PANIC_CLASSES = ('precondition not satisfied', 'possible arithmetic', 'possible division', 'possible bit shift', 'index out of bounds',
+                 'decreases not satisfied', 'could not prove termination', 'may not terminate', 'possible truncation', 'unreachable')
+
+
+def panic_like(wit):
+    """does the failing input found by a bounded stand-in show a panic, abort, overflow or hang (C07), as opposed to a wrong answer?"""
+    import re as _re
+    msg = json.dumps(wit or {}).lower()
+    return bool(_re.search(r'\bpanic|\babort|did not terminate|\bhangs?\b|\bspins?\b|stack overflow|non-zero exit without|timed out|\btimeout|rc=101|rc=134', msg))
+
+
+def bounded_relevant(pid, wit):
+    """a stand-in shared by several properties labels what it found, e.g. "(C03/C11: exactly once)" or "(C06)": a label naming other
+    properties only means the input is not a counterexample to pid"""
+    import re as _re
+    msg = json.dumps((wit or {}).get('input') or wit or {})
+    labels = set()
+    for c in _re.findall(r'\((C\d\d[^)]*)\)', msg):
+        labels |= set(_re.findall(r'C\d\d', c))
+    return (not labels) or (pid in labels) or pid == 'C07'
+
+
+def relevant_to(pid, d):
+    """does the failed obligation d speak about property pid?  Contract clauses carry /*Cxx..*/ markers; C07 (no panic, termination) owns
+    the panic-freedom / termination obligations; an obligation without any marker belongs to every property its unit serves (except
+    that a purely functional one - postcondition, assertion, invariant - is not C07's)."""
+    import re as _re
+    text = ' '.join(str(x) for x in ([d.get('text')] + (d.get('other_text') if isinstance(d.get('other_text'), list) else [d.get('other_text')])) if x)
+    marks = set()
+    for c in _re.findall(r'/\*(.*?)\*/', text, flags=_re.S):
+        if _re.match(r'\s*C\d\d', c):
+            ms = set(_re.findall(r'C\d\d', c))
+            # the rename contracts (C16) are also the IR kernels of C01 (field position) and C02 (variant position)
+            if 'C16' in ms:
+                if 'variant' not in c:
+                    ms.add('C01')
+                if 'field' not in c:
+                    ms.add('C02')
+            marks |= ms
+    if not marks:
+        # no marker on the failed clause itself: the markers of the enclosing function's contract decide
+        for c in d.get('contract_marks') or []:
+            ms = set(_re.findall(r'C\d\d', c))
+            if 'C16' in ms:
+                if 'variant' not in c:
+                    ms.add('C01')
+                if 'field' not in c:
+                    ms.add('C02')
+            marks |= ms
+    msg = (d.get('message') or '').lower()
+    panicky = any(c in msg for c in PANIC_CLASSES) and 'lemma' not in text
+    if pid == 'C07':
+        return panicky or 'C07' in marks
+    if marks:
+        return pid in marks
+    return True
+
+
 def write_replay(pid, unit_res, witness, idx):
     os.makedirs(os.path.join(VERIF, 'replays'), exist_ok=True)
     path = os.path.join(VERIF, 'replays', '%s-%s-%d.json' % (pid, unit_res['unit'].replace('/', '_'), idx))
@@ -202,6 +261,7 @@ def main():
         return registry.replay(pid, args.replay, WORK)
 
     t0 = time.time()
+    os.environ['VERIF_PID'] = pid      # stand-ins shared by several properties make only this property's comparisons
     spec = registry.PROPS[pid]
     os.makedirs(WORK, exist_ok=True)
     workdir = tempfile.mkdtemp(prefix='%s-' % pid, dir=WORK)
@@ -229,9 +289,35 @@ def main():
         # ---- verdicts
         violations, undecided = [], []
         for r in results:
+            if r.get('bounded') and r['status'] == 'violation' and not bounded_relevant(pid, r.get('witness')):
+                # the failing input the stand-in found is labelled with other properties (a search shared by several properties)
+                r['status'] = 'pass'
+                r['note'] = 'the stand-in found a failing input that belongs to another property: ' + json.dumps((r.get('witness') or {}).get('input'))[:200]
+                r['failed'] = []
+                continue
             if r.get('bounded') and r['status'] == 'violation':
+                if pid == 'C07' and not panic_like(r.get('witness')):
+                    # the stand-in found an input on which the code answers wrongly, not one on which it panics or hangs: not C07's business
+                    r['status'] = 'pass'
+                    r['note'] = 'a functional mismatch was found (reported under the property it belongs to), no panic / hang'
+                    r['failed'] = []
+                    continue
                 violations.append((r, r['witness']))
                 continue
+            if r['status'] == 'violation':
+                # a unit may carry clauses of several properties: only the failed obligations that speak about THIS property make a
+                # violation of it; if others failed, this property's own clauses were proved against callee contracts that no longer
+                # hold as a whole => undecided for this property (never an alarm, never a pass)
+                rel = [d for d in r['failed'] if relevant_to(pid, d)]
+                if not rel:
+                    r['status'] = 'undecided'
+                    r['reason'] = ('obligations of other properties failed in this unit (%s); the clauses of %s were proved modularly against '
+                                   'contracts that no longer hold as a whole' % ('; '.join(sorted({(d.get('message') or '')[:60] + ' @' + str(d.get('function')) for d in r['failed']}))[:300], pid))
+                    r['other_property_failures'] = r['failed']
+                    r['failed'] = []
+                    undecided.append(r)
+                    continue
+                r['failed'] = rel
             if r['status'] in ('violation', 'rlimit'):
                 wit = None
                 try:
@@ -254,7 +340,7 @@ def main():
                     wit = registry.witness(pid, r, workdir, seed)
                 except Exception as ex:
                     wit = {'found': False, 'error': repr(ex)}
-                if wit and wit.get('found'):
+                if wit and wit.get('found') and not (pid == 'C07' and not panic_like(wit)) and bounded_relevant(pid, wit):
                     r['failed'] = [{'class': 'bounded-stand-in', 'function': None, 'section': r['unit'],
                                     'message': 'verifier could not process the current code (%s); bounded search on the real code found a failing input' % (r.get('reason') or '')[:300],
                                     'text': None}]
